@@ -8,7 +8,11 @@
 3. Large munkres instances (to 40x40): TLC verifies a dual certificate proving that the
    total of the REAL assignment is maximal.
 4. spec -> impl: every "rewarded" state of Rewards.tla (exact rationals) is replayed into
-   the real Reward.normalizeMetrics / Reward.calculate.
+   the real Reward.normalizeMetrics / Reward.calculate.  A state poses the metric values per KIND and the
+   ORDER in which the reward configuration lists the kinds (all 24 / 6 / 6 orders); the reward is built
+   through the public RewardConfig -> rewardsFactory path with the metric configs in that order and is fed
+   the matrix with its columns in that order.  The documented formula is on kinds (RewardIsDocumentedCombination);
+   two named wrong column lookups of the spec must be refuted by TLC in every run (non-vacuity).
 """
 from __future__ import annotations
 
@@ -231,47 +235,151 @@ def validate_records(ctx: Ctx, recs, certs):
     ctx.traces_validated += len(recs) + len(certs)
 
 
+# metric KIND of Rewards.tla -> public metric names whose METRIC_TYPE is that kind (the reward classes
+# identify a metric by its type label, so every class of the type must behave alike)
+KIND_LABELS = {"stab": ("LyapunovStability",),
+               "info": ("ShannonInformation", "FisherInformation", "KLDivergence"),
+               "sens": ("SlewTimeMinimization", "SlewDistanceMinimization", "SlewTimeMaximization", "SlewDistanceMaximization"),
+               "beh": ("TimeSinceObservation",)}
+KIND_TYPE = {"stab": "stability", "info": "information", "sens": "sensor", "beh": "target"}
+REWARD_NAME = {"sum": "simple-summation", "cost": "cost-constrained", "combined": "combined"}
+DOC_ORDER = ("stab", "info", "sens", "beh")
+# spec deviation (cfg) -> the invariant TLC has to refute with it
+DEVIATIONS = {"Rewards_deviation_sublist.cfg": "ColumnsByPositionInSublist",
+              "Rewards_deviation_docorder.cfg": "ColumnsInDocumentedOrder"}
+
+
+def _reward_builder():
+    """Rewards built through the PUBLIC path: RewardConfig (metric configs in the posed order) -> rewardsFactory."""
+    from resonaate.common.labels import MetricLabel
+    from resonaate.scenario.config.reward_config import (CombinedRewardConfig, CostConstrainedRewardConfig,
+                                                         MetricConfig, SimpleSummationRewardConfig)
+    from resonaate.tasking.rewards import rewardsFactory
+    cfg_cls = {"sum": SimpleSummationRewardConfig, "cost": CostConstrainedRewardConfig, "combined": CombinedRewardConfig}
+    cache = {}
+
+    def build(kind, delta, order, pick):
+        names = tuple(KIND_LABELS[k][pick % len(KIND_LABELS[k])] for k in order)
+        key = (kind, tuple(delta), names)
+        if key not in cache:
+            conf = cfg_cls[kind](metrics=[MetricConfig(name=MetricLabel(nm)) for nm in names])
+            if kind != "sum":
+                # the config schema only validates the default delta (gt=0, lt=0 bounds): other values are set
+                # on a copy of the validated config, the factory path (fromConfig) is the same
+                conf = conf.model_copy(update={"delta": delta[0] / delta[1]})
+            rw = rewardsFactory(conf)
+            # Reward.calculateMetrics assembles one column per metric of reward.metrics, in THAT order: the columns
+            # handed to the real code follow the built object (normally the configured order; a factory that
+            # rearranges its metric list consistently is not a defect).  A different SET of metric types is one.
+            got_types = [str(getattr(m.metric_type, "value", m.metric_type)) for m in rw.metrics]
+            want_types = [KIND_TYPE[k] for k in order]
+            if sorted(got_types) != sorted(want_types):
+                raise _FactoryMismatch(f"rewardsFactory built metrics of types {got_types} from a configuration listing {want_types}")
+            cache[key] = (rw, None if got_types == want_types else [want_types.index(t) for t in got_types])
+        return cache[key]
+
+    return build
+
+
+def _close(a, b):
+    """|a - b| <= 1e-12 everywhere (b finite: exact rationals of the spec); NaN / inf / a wrong shape are never close."""
+    return a.shape == b.shape and bool((np.abs(a - b) <= 1e-12).all())
+
+
+class _FactoryMismatch(Exception):
+    pass
+
+
+def _real_reward(built, cube):
+    """normalizeMetrics + calculate of the real reward; `normed` is returned with its columns in the POSED order."""
+    rw, cols = built
+    nt, ns = len(cube), len(cube[0])
+    arr = np.array(cube, dtype=float)
+    if cols is not None:
+        arr = arr[..., cols].copy()
+    normed = np.asarray(rw.normalizeMetrics(arr), dtype=float)
+    got = np.asarray(rw.calculate(normed.copy()), dtype=float).reshape(nt, ns)
+    if cols is not None and normed.shape == arr.shape:
+        back = np.empty_like(normed)
+        back[..., cols] = normed
+        normed = back
+    return normed, got
+
+
 def replay_rewards(ctx: Ctx):
-    from resonaate.tasking.metrics.information import ShannonInformation
-    from resonaate.tasking.metrics.sensor import SlewTimeMinimization
-    from resonaate.tasking.metrics.stability import LyapunovStability
-    from resonaate.tasking.metrics.target import TimeSinceObservation
-    from resonaate.tasking.rewards.rewards import CombinedReward, CostConstrainedReward, SimpleSummationReward
-    cfg = "Rewards_quick.cfg" if ctx.quick else "Rewards_thorough.cfg"
-    res = tlc.require_ok(tlc.run_tlc("Rewards", cfg, ctx.sub("rewards"), workers=ctx.cpus, timeout=3000))
-    ctx.add_tlc(res, "Rewards.tla exhaustive (normalisation invariants + expected rewards)")
-    for inv, states in res.invariant_violations:
-        raise tlc.MachineryError(f"Rewards.tla invariant {inv} violated at spec level:\n" + "\n".join(states[-1:]))
-    m3 = [LyapunovStability(), ShannonInformation(), SlewTimeMinimization()]
-    m4 = [*m3, TimeSinceObservation()]
+    from concurrent.futures import ThreadPoolExecutor
+    cfgs = ["Rewards_quick.cfg"] if ctx.quick else ["Rewards_quick.cfg", "Rewards_orders_thorough.cfg", "Rewards_thorough.cfg"]
+    with ThreadPoolExecutor(len(DEVIATIONS) + 1) as ex:
+        # non-vacuity of the order stratum: TLC must refute each named wrong column lookup (small runs, one worker each)
+        dev_f = {c: ex.submit(tlc.run_tlc, "Rewards", c, ctx.sub("rewards_" + c[:-4]), workers=1, timeout=600) for c in DEVIATIONS}
+        main = [tlc.run_tlc("Rewards", c, ctx.sub("rewards_" + c[:-4]), workers=ctx.cpus, timeout=3000) for c in cfgs]
+        devs = {c: f.result() for c, f in dev_f.items()}
+    for c, res in devs.items():
+        ctx.add_tlc(res, f"Rewards.tla with deviation {DEVIATIONS[c]}: refutation expected")
+        if [i for i, _ in res.invariant_violations] != ["RewardIsDocumentedCombination"] or res.errors:
+            raise tlc.MachineryError(f"spec deviation {DEVIATIONS[c]} not refuted by RewardIsDocumentedCombination "
+                                     f"(violated: {[i for i, _ in res.invariant_violations]}, errors: {res.errors[:2]})")
+    ctx.extra["reward_spec_deviations_refuted"] = sorted(DEVIATIONS.values())
+    build = _reward_builder()
     n = 0
-    for st in res.tagged("REWARD"):
-        d = st["delta"][0] / st["delta"][1]
-        if st["kind"] == "sum":
-            rw = SimpleSummationReward(m3)
-        elif st["kind"] == "cost":
-            rw = CostConstrainedReward(m3, delta=d)
-        else:
-            rw = CombinedReward(m4, delta=d)
-        cube = np.array(st["cube"], dtype=float)
-        normed = rw.normalizeMetrics(cube.copy())
-        got = np.asarray(rw.calculate(normed.copy()), dtype=float).reshape(len(st["cube"]), len(st["cube"][0]))
-        exp_n = np.array([[[q[0] / q[1] for q in s] for s in t] for t in st["norm"]])
-        exp_r = np.array([[q[0] / q[1] for q in t] for t in st["reward"]])
-        n += 1
-        ctx.case(("reward", st["kind"], st["delta"], st["cube"]), sample=st if n == 1 else None)
-        if not np.allclose(normed, exp_n, rtol=0, atol=1e-12):
-            ctx.violation(f"reward-normalize-{st['kind']}", "normalizeMetrics differs from exact normalisation",
-                          {"state": st, "got": normed.tolist()})
-        elif normed.max() > 1 + 1e-12 and (np.array(st["cube"]).max(axis=(0, 1)) > 0).all():
-            ctx.violation("reward-normalize-gt1", "normalised metric above one", {"state": st})
-        if not np.allclose(got, exp_r, rtol=0, atol=1e-12):
-            ctx.violation(f"reward-value-{st['kind']}", "Reward.calculate differs from the documented combination",
-                          {"state": st, "got": got.tolist()})
+    orders_seen = set()
+    for cfg, res in zip(cfgs, main):
+        for inv, states in res.invariant_violations:
+            raise tlc.MachineryError(f"Rewards.tla invariant {inv} violated at spec level ({cfg}):\n" + "\n".join(states[-1:]))
+        tlc.require_ok(res, cfg)
+        ctx.add_tlc(res, f"Rewards.tla exhaustive, metric order x cube ({cfg}: kind-level reward formula, normalisation invariants, expected rewards)")
+        for st in res.tagged("REWARD"):
+            kind, order, cube = st["kind"], tuple(st["order"]), st["cube"]
+            exp_n = np.array([[[q[0] / q[1] for q in s] for s in t] for t in st["norm"]])
+            exp_r = np.array([[q[0] / q[1] for q in t] for t in st["reward"]])
+            n += 1
+            orders_seen.add((kind, order))
+            ctx.case(("reward", kind, st["delta"], order, cube), sample=st if n == 1 else None)
+            # which metric class of each type: a function of the posed state (TLC's output order is not deterministic)
+            pick = ctx.seed + sum((i + 1) * v for i, v in enumerate(x for row in cube for cell in row for x in cell))
+            try:
+                normed, got = _real_reward(build(kind, st["delta"], order, pick), cube)
+            except tlc.MachineryError:
+                raise
+            except _FactoryMismatch as exc:
+                ctx.violation("reward-factory-metrics", str(exc), {"state": st})
+                continue
+            except Exception as exc:  # noqa: BLE001 - every exception of the real code on a valid configuration is a violation
+                ctx.violation(f"reward-exception-{kind}", f"{REWARD_NAME[kind]} reward raised {type(exc).__name__}: {exc}",
+                              {"state": st})
+                continue
+            if not _close(normed, exp_n):
+                ctx.violation(f"reward-normalize-{kind}", "normalizeMetrics differs from exact normalisation",
+                              {"state": st, "got": normed.tolist()})
+            elif normed.max() > 1 + 1e-12 and (np.array(cube).max(axis=(0, 1)) > 0).all():
+                ctx.violation("reward-normalize-gt1", "normalised metric above one", {"state": st})
+            if not _close(got, exp_r):
+                # is the listing order to blame?  the same metric values listed in the documented order
+                doc = tuple(k for k in DOC_ORDER if k in order)
+                by_order = False
+                if order != doc:
+                    cube_doc = [[[cell[order.index(k)] for k in doc] for cell in row] for row in cube]
+                    try:
+                        by_order = _close(_real_reward(build(kind, st["delta"], doc, pick), cube_doc)[1], exp_r)
+                    except Exception:  # noqa: BLE001
+                        by_order = False
+                if by_order:
+                    ctx.violation(f"{REWARD_NAME[kind]}-reward-metric-order",
+                                  f"{REWARD_NAME[kind]} reward depends on the order in which the configuration lists the metrics "
+                                  f"(order {list(order)} differs from the documented combination, order {list(doc)} agrees)",
+                                  {"state": st, "got": got.tolist()})
+                else:
+                    ctx.violation(f"reward-value-{kind}", "Reward.calculate differs from the documented combination",
+                                  {"state": st, "got": got.tolist()})
     if n == 0:
         raise tlc.MachineryError("Rewards.tla emitted no states")
+    want = {"sum": 6, "cost": 6, "combined": 24}
+    have = {k: len({o for kk, o in orders_seen if kk == k}) for k in want}
+    if have != want:
+        raise tlc.MachineryError(f"metric orders replayed {have}, expected {want}")
     ctx.traces_validated += n
     ctx.extra["reward_states_replayed"] = n
+    ctx.extra["reward_metric_orders_replayed"] = have
 
 
 def run(ctx: Ctx):
@@ -280,9 +388,16 @@ def run(ctx: Ctx):
     rng = random.Random(ctx.seed * 7919 + 17)
     ctx.rule = ("records: every R over small integers for all shapes up to 3x3 (x masks), tie-heavy 4x4(+) samples, "
                 "all masks for random/all-visible; non-trivial = more than one cell (ties counted); distinct by (policy,R,V). "
-                "certs: random 5..40 x 5..40 integer matrices; rewards: every state of Rewards.tla")
+                "certs: random 5..40 x 5..40 integer matrices; rewards: every state of Rewards.tla = reward class x delta x "
+                "every order of its metric kinds x cube (whole lattice for the documented order, kind-distinct columns for all orders), "
+                "reward built by rewardsFactory from the config listing the metrics in that order, metric class rotating within its type")
     ctx.assumptions = ["documented sense of each policy: selection on R, then AND with V (Decision.calculate)",
-                       "rewards are integers in the records (ties are exact); floats only inside the implementation"]
+                       "rewards are integers in the records (ties are exact); floats only inside the implementation",
+                       "reward values / normalised metrics compared with the exact rationals to 1e-12 absolute",
+                       "a reward identifies its metrics by METRIC_TYPE (class docstrings: 'one metric of each of the following types'), "
+                       "so every listing order of the kinds is a valid configuration",
+                       "delta other than the default is set on a copy of the validated RewardConfig (the schema's gt=0/lt=0 bounds "
+                       "reject every explicit delta); the reward is still built by rewardsFactory/fromConfig"]
     for cfgname in (["Decisions_quick.cfg"] if ctx.quick else ["Decisions_thorough2.cfg", "Decisions_thorough.cfg"]):
         spec = tlc.require_ok(tlc.run_tlc("Decisions", cfgname, ctx.sub("spec_" + cfgname[:-4]), workers=ctx.cpus, timeout=6000))
         ctx.add_tlc(spec, f"Decisions.tla spec-level theorems ({cfgname})")
